@@ -37,10 +37,18 @@ EmitX == pc = "done" =>
   PrintT(<<"VEC", ToJson([fam |-> Family, pa |-> cfg.pa, ra |-> cfg.ra, tagged |-> cfg.tagged, pv |-> pv, rv |-> rv, flag |-> xflag,
      raw |-> (xflag # "none" \/ \E i \in PIdx : Malformed(pv[i])),
      allow |-> [mustInvoke |-> Satisfies(cfg.pa, pv) /\ xflag = "none" /\ (\A i \in PIdx : ~Malformed(pv[i])),
-                mustReject |-> Violates(cfg.pa, pv) \/ (\E i \in PIdx : Malformed(pv[i])),
+                mustReject |-> Violates(cfg.pa, pv) \/ (\E i \in PIdx : Malformed(pv[i])) \/ xflag = "omit",
                 cMustAccept |-> Satisfies(cfg.ra, rv)],
      mech |-> [invoked |-> invoked, status |-> status, sreq |-> ValJ(SchemaReqVerdicts),
                sresp |-> IF invoked /\ status \in {200, 201} THEN ValJ(SchemaRespVerdicts) ELSE <<>>] ])>>)
+\* the method shapes alone (to draw a sample before enumerating the exchanges), and the sample read back
+XShapeInit == /\ \E a \in (IF Family = "req" THEN XAttrsAll ELSE {x \in XAttrsAll : ResAttrOK(x)}) :
+                   cfg = [pa |-> <<a>>, ra |-> <<>>, tagged |-> FALSE, devs |-> {}]
+              /\ pv = <<>> /\ rv = <<>> /\ xflag = "none" /\ Idle /\ OInit
+XShapeSpec == XShapeInit /\ [][FALSE]_<<hvars, ovars>>
+EmitShape == PrintT(<<"VEC", ToJson([a |-> cfg.pa[1]])>>)
+SampleFile == ndJsonDeserialize("shapes.ndjson")
+MCXAttrs == {SampleFile[i].a : i \in 1..Len(SampleFile)}
 \* evaluation of given exchanges under given deviation sets
 XCases == ndJsonDeserialize("xcases.ndjson")
 XEvalInit ==
